@@ -737,6 +737,7 @@ func collectRaces(files []string) []raceRec {
 func raceSignature(text string) (string, bool) {
 	var sigs []string
 	repo := false
+	harnessTops := 0
 	sections := regexp.MustCompile(`(?m)^(?:Write|Read|Previous write|Previous read|Atomic|Previous atomic)[^\n]*\n`).Split(text, -1)
 	for i, s := range sections {
 		if i == 0 {
@@ -746,6 +747,7 @@ func raceSignature(text string) (string, bool) {
 			break
 		}
 		first := ""
+		top := ""
 		for _, l := range strings.Split(s, "\n") {
 			t := strings.TrimSpace(l)
 			if t == "" {
@@ -756,6 +758,9 @@ func raceSignature(text string) (string, bool) {
 			}
 			if strings.HasPrefix(t, "/") || strings.HasPrefix(t, "Goroutine") {
 				continue
+			}
+			if top == "" {
+				top = t // the function that performs the access
 			}
 			if strings.Contains(t, "graphql-go-tools/") {
 				repo = true
@@ -774,8 +779,16 @@ func raceSignature(text string) (string, bool) {
 			first = "?"
 		}
 		sigs = append(sigs, first)
+		if strings.HasPrefix(top, "verifharness/") {
+			harnessTops++
+		}
 	}
 	sort.Strings(sigs)
+	if harnessTops >= 2 {
+		// both accesses are performed by harness functions (monitor state touched from a callback the
+		// repository invokes): a race of the machinery, not of the repository
+		repo = false
+	}
 	return strings.Join(sigs, " <-> "), repo
 }
 
